@@ -1505,3 +1505,55 @@ def hyper_dims(mk, flavour, geom):
     hyper_messages_exact(mk, msgs, bp.tn, fg, f"{flavour} D=3")
     marginal_goals(mk, bp.tn, msgs, fg, f"{flavour} D=3")
     mk.eq(f"{flavour}.contract() with bond dimension 3 == exact value", bp.contract(), Z)
+
+
+# ---------------------------------------------------------------------- damping convention
+
+def _msg_arrays(bp):
+    out = []
+    for m in bp.messages.values():
+        out.append(np.asarray(m.data if hasattr(m, "data") and not isinstance(m, np.ndarray) else m))
+    return out
+
+
+def _same_array(a, b, mk):
+    a, b = np.asarray(a), np.asarray(b)
+    if a.shape != b.shape:
+        return False
+    if mk.sym:
+        return all((P.lift(x) - P.lift(y)).iszero() for x, y in zip(a.reshape(-1), b.reshape(-1)))
+    return bool(np.allclose(a.astype(complex), b.astype(complex), rtol=1e-12, atol=1e-14))
+
+
+@obligation(PROP, params=[{"flavour": f} for f in ("D1BP", "HD1BP", "L1BP", "D2BP", "L2BP")], wall_s=200, timeout_s=300)
+def damping_argument_order(mk, flavour):
+    """damping may be a callable (old, new) -> mixed, documented as damping * old + (1 - damping) * new:
+    in the first parallel round from known messages, the first argument of every call must be a message
+    that was stored before the round (every flavour must follow the same convention)"""
+    mk.encodes(bp_common.BeliefPropagationCommon.damping, d1bp.D1BP.iterate, hd1bp.HD1BP.iterate, l1bp.L1BP.iterate,
+               d2bp.D2BP.iterate, l2bp.L2BP.iterate)
+    calls = []
+
+    def damp(old, new):
+        calls.append((np.asarray(old), np.asarray(new)))
+        return new
+
+    if flavour == "D1BP":
+        bp = d1bp.D1BP(build1(mk, "path3", "pos"), normalize="L1", distance=sdist, update="parallel")
+    elif flavour == "HD1BP":
+        bp = hd1bp.HD1BP(build1(mk, "path3", "pos"), normalize="L1", distance=sdist, update="parallel", smudge_factor=0.0)
+    elif flavour == "L1BP":
+        tn, sites = build_lazy1(mk, "lpath3", "pos")
+        bp = l1bp.L1BP(tn, site_tags=sites, normalize="L1", distance=sdist, update="parallel")
+    elif flavour == "D2BP":
+        bp = d2bp.D2BP(build2(mk, "path3", "pos")[0], normalize="L1", distance=sdist, update="parallel")
+    else:
+        tn, sites = build_lazy2(mk, "lpath3", "pos")
+        bp = l2bp.L2BP(tn, site_tags=sites, normalize="L1", distance=sdist, update="parallel")
+    before = _msg_arrays(bp)
+    bp.damping = damp
+    bp.run(max_iterations=1, tol=0.0)
+    mk.same(f"{flavour}: the damping callable is used", len(calls) >= 1, True)
+    for k, (old, new) in enumerate(calls):
+        mk.same(f"{flavour}: damping call {k}: first argument is a message stored before the round (old), not the update",
+                any(_same_array(old, b, mk) for b in before), True)
